@@ -2,7 +2,7 @@
    the property's statement holds of that output. *)
 From Coq Require Import List ZArith NArith QArith Bool Lia.
 From RareV Require Import Base.Hex Base.Num Base.Res Gen.GenPalette Model.Scale Model.Render
-  Proofs.RenderBars Proofs.RenderTable Corr.C14Case.
+  Proofs.RenderBars Proofs.RenderTable Proofs.RenderHisto Corr.C14Case.
 Import ListNotations.
 Local Open Scope Z_scope.
 
@@ -274,8 +274,8 @@ Theorem check_spark_sound c rlim clim a lines : spark_chk c rlim clim a lines = 
      let vals := last_cols k (r_vals r) in
      count_in (spark_alpha c) (nth (S j) lines []) =
        (count_in (spark_alpha c) (name_cell c r) +
-        count_in (spark_alpha c) (match vals with [] => [] | v :: _ => fmt_of (c_fk c) v end) +
-        count_in (spark_alpha c) (match vals with [] => [] | _ => fmt_of (c_fk c) (last vals 0%Z) end) + k)%nat) /\
+        count_in (spark_alpha c) (match vals with [] => [] | v :: _ => fmt_of (c_fk c) v (a_min a) (a_max a) end) +
+        count_in (spark_alpha c) (match vals with [] => [] | _ => fmt_of (c_fk c) (last vals 0%Z) (a_min a) (a_max a) end) + k)%nat) /\
   ((rc < length (a_rows a))%nat -> In (more_txt (Z.of_nat (length (a_rows a) - rc))) lines).
 Proof.
   unfold spark_chk. cbv zeta. intros H. apply andb_prop in H as [H1 H2]. split.
@@ -298,8 +298,33 @@ Proof.
 Qed.
 Theorem check_data_sound c ncols nrows rt a lines : data_chk c ncols nrows rt a lines = true ->
   forall j r, nth_error (firstn nrows (a_rows a)) j = Some r ->
-    words [] (nth (S j) lines []) = data_row_words c (Nat.min ncols (length (a_cols a))) rt r.
+    words [] (nth (S j) lines []) = data_row_words c (a_min a) (a_max a) (Nat.min ncols (length (a_cols a))) rt r.
 Proof.
   unfold data_chk. intros H j r Hn. pose proof (all_idx_spec _ _ _ _ _ H Hn) as Hr. simpl in Hr.
   apply Sl_eqb_eq. exact Hr.
+Qed.
+
+(* histogram: if the check accepts the observed screen, every displayed line (value > 0) shows
+   the line of its key and value under the FINAL maximum and key width — its bar is the bar of
+   its value against the current maximum *)
+Theorem check_histo_sound c n sb ops lines : check (IHisto c n sb ops) (OS lines) = true ->
+  let h := hstate (c_col c) n ops in
+  forall i k v, nth_error (h_items h) i = Some (k, v) -> 0 < v ->
+    exists l, histo_line (c_col c) (c_uni c) (m_of (c_mp c)) round53 (fmt_of (c_fk c)) sb h k v = Ok l /\
+              nth i lines [] = vis (c_col c) l.
+Proof.
+  cbn [check]. unfold histo_chk. cbv zeta. intros H i k v Hn Hv.
+  pose proof (all_idx_spec _ _ _ _ _ H Hn) as Hr. cbn [fst snd] in Hr.
+  destruct (Z.ltb_spec 0 v); [|lia].
+  destruct (histo_line _ _ _ _ _ _ _ _ _) as [l|]; [|discriminate Hr].
+  exists l. split. reflexivity. apply str_eqb_eq. exact Hr.
+Qed.
+
+(* formatter: every observed output is the template instantiated with (value, min, max) of its
+   own call — a function of the triple alone, whatever was formatted before *)
+Theorem check_fmt_sound f calls l : check (IFmt f calls) (OS l) = true ->
+  Forall2 (fun x out => out = fmt_of f (fst (fst x)) (snd (fst x)) (snd x)) calls l.
+Proof.
+  cbn [check]. intros H. apply zip_all_Forall2 in H.
+  eapply Forall2_impl; [|exact H]. cbv beta. intros x out E. apply str_eqb_eq. exact E.
 Qed.
